@@ -10,11 +10,104 @@ from mc import probelib
 SKIP_IMPORT_TOP = ('tests', 'samples', 'docs', 'scripts', 'testing')
 
 
+def _norm(n):
+    import re
+    return re.sub(r'[-_.]+', '-', n).lower()
+
+
+def undeclared_dependencies(root, lib_files):
+    """Distributions that own a module the emitted library imports, minus the transitive closure of the requirements the
+    emitted setup.py declares.  -> (list of (distribution, module), note) ; None when there is no setup.py to judge."""
+    import ast
+    import glob
+    import importlib.metadata as md
+    import importlib.util
+    import sysconfig
+    from packaging.requirements import Requirement
+    setup = os.path.join(root, 'setup.py')
+    if not os.path.exists(setup):
+        return None
+    declared = []
+    for node in ast.walk(ast.parse(open(setup, encoding='utf8').read())):
+        if isinstance(node, ast.Assign) and len(node.targets) == 1 and getattr(node.targets[0], 'id', None) == 'dependencies' \
+                and isinstance(node.value, ast.List):
+            declared = [e.value for e in node.value.elts if isinstance(e, ast.Constant) and isinstance(e.value, str)]
+    # modules imported by the library sources
+    mods = set()
+    for full in lib_files:
+        try:
+            tree = ast.parse(open(full, encoding='utf8').read())
+        except SyntaxError:
+            continue
+        for node in ast.walk(tree):
+            if isinstance(node, ast.Import):
+                mods.update(a.name for a in node.names)
+            elif isinstance(node, ast.ImportFrom) and node.level == 0 and node.module:
+                mods.add(node.module)
+                mods.update(f'{node.module}.{a.name}' for a in node.names)
+    sp = sysconfig.get_paths()['purelib']
+    records = None
+    needed = {}
+    for m in sorted(mods):
+        try:
+            spec = importlib.util.find_spec(m)
+        except (ImportError, ValueError, AttributeError):
+            continue
+        origin = getattr(spec, 'origin', None)
+        if not origin or not origin.startswith(sp + os.sep):
+            continue        # standard library, the emitted tree itself, synthesized dependency modules
+        rel = os.path.relpath(origin, sp)
+        if records is None:
+            records = []
+            for rec in glob.glob(os.path.join(sp, '*.dist-info', 'RECORD')):
+                name = os.path.basename(os.path.dirname(rec)).rsplit('-', 1)[0]
+                try:
+                    for l in open(os.path.join(os.path.dirname(rec), 'METADATA'), encoding='utf8'):
+                        if l.startswith('Name:'):
+                            name = l.split(':', 1)[1].strip()
+                            break
+                except OSError:
+                    pass
+                records.append((_norm(name), '\n' + open(rec, encoding='utf8').read()))
+        for name, text in records:
+            if f'\n{rel},' in text:
+                needed.setdefault(name, m)
+                break
+    # transitive closure of the declared requirements
+    closure, todo = set(), []
+    for d in declared:
+        try:
+            r = Requirement(d)
+        except Exception:
+            continue
+        if r.marker is None or r.marker.evaluate({'extra': ''}):
+            todo.append((_norm(r.name), frozenset(r.extras)))
+    while todo:
+        name, extras = todo.pop()
+        if (name, extras) in closure:
+            continue
+        closure.add((name, extras))
+        try:
+            reqs = md.requires(name) or []
+        except md.PackageNotFoundError:
+            continue
+        for q in reqs:
+            try:
+                r = Requirement(q)
+            except Exception:
+                continue
+            if r.marker is None or any(r.marker.evaluate({'extra': e}) for e in (extras or {''}) | {''}):
+                todo.append((_norm(r.name), frozenset(r.extras)))
+    have = {n for n, _ in closure}
+    return sorted((n, m) for n, m in needed.items() if n not in have)
+
+
 def main(p):
     root = os.getcwd()
     out = dict(compile_errors=[], json_errors=[], import_errors=[], clients=[], exports={}, n_py=0,
                n_json=0, n_imported=0)
     modules = []
+    lib_files = []
     for dp, dn, fn in os.walk(root):
         dn.sort()
         for f in sorted(fn):
@@ -33,6 +126,7 @@ def main(p):
                 parts = rel[:-3].split(os.sep)
                 if parts[0] in SKIP_IMPORT_TOP or len(parts) == 1:
                     continue   # setup.py / noxfile.py / tests are compiled only
+                lib_files.append(full)
                 if parts[-1] == '__init__':
                     parts = parts[:-1]
                 if all(x.isidentifier() for x in parts):
@@ -83,6 +177,11 @@ def main(p):
                     default = f'!{type(e).__name__}'
                 out['clients'].append(dict(module=m, name=name, registry=None if is_async else registry, default=default,
                                            exported=name in getattr(mod, '__all__', ())))
+    try:
+        out['undeclared_dependencies'] = undeclared_dependencies(root, lib_files)
+    except BaseException as e:     # the judgement is skipped, never guessed
+        out['undeclared_dependencies'] = None
+        out['dependency_check_error'] = repr(e)[:300]
     return out
 
 
